@@ -14,7 +14,10 @@ import (
 )
 
 var values = []int64{-1<<31 - 1, -1 << 31, -1<<31 + 1, -5, -1, 0, 1, 5, 1<<31 - 2, 1<<31 - 1, 1 << 31, 1<<32 - 2, 1<<32 - 1, 1 << 32}
-var names = []string{"a", "b", "c"}
+// the empty name is an ordinary key for Set/SetNext (whose uniqueness guarantees do not
+// depend on what the names look like); RFC 7950 forbids it in a schema, so sequences
+// containing it are driven through the API only
+var names = []string{"a", "b", "c", ""}
 
 func options() []exact.Member {
 	var opts []exact.Member
@@ -31,9 +34,9 @@ func seqString(seq []exact.Member) string {
 	var p []string
 	for _, m := range seq {
 		if m.Explicit {
-			p = append(p, fmt.Sprintf("%s=%d", m.Name, m.Value))
+			p = append(p, fmt.Sprintf("%q=%d", m.Name, m.Value))
 		} else {
-			p = append(p, m.Name)
+			p = append(p, fmt.Sprintf("%q", m.Name))
 		}
 	}
 	return strings.Join(p, " ")
@@ -173,7 +176,11 @@ func Enum(j *job.Job, s *job.Sink) {
 			if c, d, f := CheckAPI(seq, bits); c != "" {
 				s.Violation(idx, j.CaseID(idx), "C14.api", c, d, map[string]any{"sequence": seqString(seq), "bits": bits}, f)
 			}
-			if idx%int64(schemaEvery) == 0 {
+			hasEmpty := false
+			for _, m := range seq {
+				hasEmpty = hasEmpty || m.Name == ""
+			}
+			if idx%int64(schemaEvery) == 0 && !hasEmpty {
 				s.Count("schema_cases", 1)
 				if c, d := CheckSchema(seq, bits); c != "" {
 					s.Violation(idx, j.CaseID(idx), "C14.schema", c, d, map[string]any{"sequence": seqString(seq), "bits": bits}, nil)
